@@ -223,9 +223,17 @@ def bl5(ctx, R):
     # _write_data: loop over self.objects with a filter
     p_write = None
     for n in walk_body(wd_f.node):
-        if isinstance(n, ast.For) and dotted(n.iter) == "self.objects" and isinstance(n.target, ast.Name):
+        if isinstance(n, ast.For) and isinstance(n.target, ast.Name):
             sw = Sym(prog, wd_f, wd_f.cls)
-            conds = []
+            env_, _g = sw.env_at(n)
+            it = sw.expr(n.iter, env_)
+            if it == ("self", "objects"):
+                conds = []
+            elif it[0] == "comp" and it[1] == it[2] and it[3] == ("self", "objects"):
+                # the objects are drawn from a filtering helper:  for obj in _objects_with_raw_data(self.objects)
+                conds = [_subst(c, it[2], OBJ) for c in it[4]]
+            else:
+                continue
             body = n.body
             while len(body) == 1 and isinstance(body[0], ast.If) and not body[0].orelse:
                 conds.append(sw.expr(body[0].test, {n.target.id: OBJ, "self": ("param", "self")}))
@@ -476,6 +484,46 @@ def _key_reaches_ordering(prog, fi, key_expr):
     return False
 
 
+def _bucket_form(prog, ws):
+    """objects collected in one list per rank:  T = (a, b, c); T[_path_ordering_key(p)].append(o); ...; a + b + c
+    -> (names per rank, joined in rank order?, node) or None"""
+    cands = {}
+    for n in walk_body(ws.node):
+        if isinstance(n, ast.Assign) and len(n.targets) == 1 and isinstance(n.targets[0], ast.Name) and isinstance(n.value, (ast.Tuple, ast.List)) \
+                and n.value.elts and all(isinstance(e, ast.Name) or (isinstance(e, ast.List) and not e.elts) for e in n.value.elts):
+            cands[n.targets[0].id] = n.value.elts
+    hit = None
+    for c in walk_body(ws.node):
+        if isinstance(c, ast.Call) and isinstance(c.func, ast.Attribute) and c.func.attr == "append" and isinstance(c.func.value, ast.Subscript) \
+                and isinstance(c.func.value.value, ast.Name) and c.func.value.value.id in cands:
+            idx = c.func.value.slice
+            if isinstance(idx, ast.Call) and (call_name(idx) == "_path_ordering_key" or _key_reaches_ordering(prog, ws, idx.func)):
+                hit = (c.func.value.value.id, c)
+    if hit is None:
+        return None
+    T, node = hit
+    names = [e.id if isinstance(e, ast.Name) else None for e in cands[T]]
+    for n in walk_body(ws.node):
+        if isinstance(n, ast.Assign) and isinstance(n.value, ast.Name) and n.value.id == T and isinstance(n.targets[0], (ast.Tuple, ast.List)) \
+                and len(n.targets[0].elts) == len(names) and all(isinstance(e, ast.Name) for e in n.targets[0].elts):
+            names = [e.id for e in n.targets[0].elts]
+
+    def flat(e):
+        if isinstance(e, ast.BinOp) and isinstance(e.op, ast.Add):
+            a, b = flat(e.left), flat(e.right)
+            return a + b if a is not None and b is not None else None
+        if isinstance(e, ast.Name):
+            return [e.id]
+        return None
+    joined = False
+    for n in walk_body(ws.node):
+        if isinstance(n, ast.Assign) and isinstance(n.value, ast.BinOp):
+            f = flat(n.value)
+            if f is not None and None not in names and f == names:
+                joined = True
+    return names, joined, node
+
+
 @rule("PO1", "parents are declared first and the written-state is updated only after the segment was written", floor=6)
 def po1(ctx, R):
     from .region import region, nodes_reaching, cone
@@ -493,9 +541,25 @@ def po1(ctx, R):
                 if (isinstance(c.func, ast.Attribute) and c.func.attr == "sort") or call_name(c) == "sorted":
                     if _key_reaches_ordering(prog, f, key):
                         sorts.append((f, c))
-    if not sorts:
-        R.violation("writer.TdmsWriter.write_segment::objects sorted parents-first", ws.where(), "no sort by _path_ordering_key on the way to the segment: the "
-                    "object list is no longer ordered root first, then groups, so a channel can precede its group")
+    buckets = _bucket_form(prog, ws) if not sorts else None
+    if not sorts and buckets is not None:
+        names, concat_ok, where_ = buckets
+        if concat_ok:
+            R.ok("writer.TdmsWriter.write_segment::objects sorted parents-first", ws.where(where_),
+                 "objects are collected in one list per rank of _path_ordering_key and the lists are joined in rank order")
+        else:
+            R.undecided("writer.TdmsWriter.write_segment::objects sorted parents-first", ws.where(where_),
+                        "objects are collected per rank of _path_ordering_key, but how the lists are joined was not recognised")
+    elif not sorts:
+        # positive evidence of disorder: implicit parents are added behind the caller's objects and nothing reorders the list
+        late = [c for c in walk_body(ws.node) if isinstance(c, ast.Call) and isinstance(c.func, ast.Attribute) and c.func.attr in ("append", "extend", "insert")
+                and any(isinstance(x, ast.Call) and call_name(x) in ("RootObject", "GroupObject") for x in ast.walk(c))]
+        if late:
+            R.violation("writer.TdmsWriter.write_segment::objects sorted parents-first", ws.where(late[0]), "no sort by _path_ordering_key on the way to the "
+                        "segment although implicit parent objects are added behind the caller's objects (`%s`): the object list is no longer ordered root "
+                        "first, then groups, so a channel can precede its group" % unparse(late[0])[:70])
+        else:
+            R.undecided("writer.TdmsWriter.write_segment::objects sorted parents-first", ws.where(), "how the object list is ordered was not recognised")
     else:
         f, c = sorts[0]
         R.ok("writer.TdmsWriter.write_segment::objects sorted parents-first", f.where(c), "sorted with a key that reaches _path_ordering_key")
@@ -554,7 +618,9 @@ def po1(ctx, R):
         if not rt:
             R.violation("writer.TdmsWriter.write_segment::root added only when missing", ws.where(roots[0]), "a root object is added unconditionally")
         else:
-            R.check("self._root_written" in rc and ".is_root" in rc, "writer.TdmsWriter.write_segment::root added only when missing", ws.where(roots[0]),
+            root_bucket = buckets[0][0] if buckets is not None and buckets[0] and buckets[0][0] else None
+            R.check("self._root_written" in rc and (".is_root" in rc or (root_bucket is not None and root_bucket in rc)),
+                    "writer.TdmsWriter.write_segment::root added only when missing", ws.where(roots[0]),
                     "depends on _root_written and on whether a root object was given",
                     "the implicit root object does not depend on both self._root_written and the presence of a root object in the segment (depends on %s)" % sorted(x for x in rc if "root" in x))
         g = groups[0]
